@@ -106,15 +106,22 @@ func Harness_C15_instance() {
 		v.FrozenSTH = fsth
 	}
 	be := &envBackend{}
-	li := newLogInfo(InstanceOptions{Validated: v, Client: be, MetricFactory: envMetricFactory()}, CertValidationOpts{}, nil, envTime{}, &directIssuanceChainService{})
+	mst := &c15MirrorStore{}
+	be.latestRoot = func(*trillian.GetLatestSignedLogRootRequest) (*trillian.GetLatestSignedLogRootResponse, error) {
+		return &trillian.GetLatestSignedLogRootResponse{SignedLogRoot: envRootOf(999999, make([]byte, 32), 5)}, nil
+	}
+	li := newLogInfo(InstanceOptions{Validated: v, Client: be, MetricFactory: envMetricFactory(), STHStorage: mst}, CertValidationOpts{}, nil, envTime{}, &directIssuanceChainService{})
 	h := li.Handlers("log")
 	_, hasAdd := h["/log"+ct.AddChainPath]
 	_, hasPre := h["/log"+ct.AddPreChainPath]
 	vAssert(hasAdd == hasPre && hasAdd == (!mirror && !readonly), "submission endpoints exposed iff neither mirror nor read-only")
 	vAssert(len(h) == 6 || len(h) == 8, "the six read endpoints are always exposed")
 	if frozen {
-		sth, err := li.sthGetter.GetSTH(nil)
-		vAssert(err == nil && sth == fsth && be.calls == 0, "a frozen log serves exactly its frozen STH, no backend call")
+		// mirror or not, read-only or not: a frozen log only ever serves its frozen STH
+		_, isFrozen := li.sthGetter.(*FrozenSTHGetter)
+		vAssert(isFrozen, "a log with a frozen STH is served by the frozen-STH getter, whatever its other flags")
+		sth, err := li.sthGetter.GetSTH(context.Background())
+		vAssert(err == nil && sth == fsth && be.calls == 0 && mst.calls == 0, "a frozen log serves exactly its frozen STH, no backend or mirror-store call")
 	} else if mirror {
 		mg, isMirror := li.sthGetter.(*MirrorSTHGetter)
 		vAssert(isMirror, "a mirror serves STHs bounded by its backend tree")
